@@ -152,9 +152,12 @@ Notation base_view := (base_view en).
 Notation step := (step fa en).
 Notation run := (run fa en).
 
+(** the session slot and the Builders' caches *)
+Definition sessall (s : state) := (sess s, bcache s).
+
 (** what stays untouched by imports in a state without sqlframe modules *)
 Definition frame (s s' : state) : Prop :=
-  config s' = config s /\ sess s' = sess s /\ pattr s' = pattr s.
+  config s' = config s /\ sessall s' = sessall s /\ pattr s' = pattr s.
 Lemma frame_refl : forall s, frame s s.
 Proof. intros; repeat split. Qed.
 Lemma frame_trans : forall a b c, frame a b -> frame b c -> frame a c.
@@ -322,7 +325,7 @@ Theorem deactivate_resets : forall s,
   realc (snd (deactivate s))
   /\ (fst (deactivate s) = EOk -> config (snd (deactivate s)) = [])
   /\ (f_clear_protected fa = true -> config (snd (deactivate s)) = [])
-  /\ pattr (snd (deactivate s)) = pattr s /\ sess (snd (deactivate s)) = sess s.
+  /\ pattr (snd (deactivate s)) = pattr s /\ sessall (snd (deactivate s)) = sessall s.
 Proof.
   intros s. unfold Activate.deactivate. cbn [fst snd].
   split; [|split; [|split]].
@@ -369,7 +372,7 @@ Qed.
 Theorem activate_homog : forall e c kv s,
   act_ok fa e s = true -> attr_inv s ->
   fst (activate e c kv s) = EOk /\ homog e (snd (activate e c kv s)) /\ attr_inv (snd (activate e c kv s))
-  /\ config (snd (activate e c kv s)) = store_config fa c kv s /\ sess (snd (activate e c kv s)) = sess s.
+  /\ config (snd (activate e c kv s)) = store_config fa c kv s /\ sessall (snd (activate e c kv s)) = sessall s.
 Proof.
   intros e c kv s Hok Hai. unfold act_ok in Hok. unfold Activate.activate.
   destruct (assoc e (f_engines fa)) as [prefix|]; [|discriminate].
@@ -395,7 +398,7 @@ Qed.
 Lemma attr_inv_more : forall s pa, attr_inv s -> attr_inv (set_pattr s (pattr s ++ pa)).
 Proof. intros s pa H f e' Ha. cbn in *. rewrite mem2_app, (H _ _ Ha). reflexivity. Qed.
 
-Definition keeps (s s' : state) : Prop := config s' = config s /\ sess s' = sess s /\ junk s' = junk s.
+Definition keeps (s s' : state) : Prop := config s' = config s /\ sessall s' = sessall s /\ junk s' = junk s.
 Lemma keeps_refl : forall s, keeps s s. Proof. intros; repeat split. Qed.
 
 Lemma import_sub_homog : forall e f s, homog e s -> attr_inv s ->
@@ -541,13 +544,17 @@ Proof.
   - subst h. destruct Hin.
 Qed.
 
+Definition sess_valid (ss : sstate) (e0 : string) (c0 : option nat) : Prop :=
+  in_hist e0 c0 (hist ss) = true
+  \/ (mem e0 (f_noconn fa) = true /\ c0 = None /\ exists c, in_hist e0 c (hist ss) = true).
+
 Definition sess_ok (ss : sstate) (s : state) : Prop :=
   match sess s with
   | SNone => True
   | SPoisoned => tainted (hist ss) = true
-  | SLive e0 c0 => in_hist e0 c0 (hist ss) = true
-                   \/ (mem e0 (f_noconn fa) = true /\ c0 = None /\ exists c, in_hist e0 c (hist ss) = true)
-  end.
+  | SLive e0 c0 => sess_valid ss e0 c0
+  end
+  /\ forall e e0 c0, assoc e (bcache s) = Some (e0, c0) -> sess_valid ss e0 c0.
 
 Record Inv (E : option string) (ss : sstate) (s : state) : Prop := mkInv {
   inv_attr : attr_inv s;
@@ -565,7 +572,7 @@ Lemma Inv_init : Inv None sinit init_state.
 Proof.
   constructor; cbn.
   - apply attr_inv_init. - reflexivity. - split; [apply realc_init | reflexivity].
-  - intros k H; discriminate. - exact I.
+  - intros k H; discriminate. - split; [exact I | intros e e0 c0 H; discriminate].
 Qed.
 
 Lemma realc_attr_inv : forall s, realc s -> attr_inv s.
@@ -610,15 +617,21 @@ Proof.
   unfold store_config. now apply fold_cset_has.
 Qed.
 
-Lemma sess_ok_snoc : forall ss s s' x ac,
-  sess s' = sess s -> sess_ok ss s -> sess_ok (mkS ac (hist ss ++ [x])) s'.
+Lemma sess_valid_snoc : forall ss ac x e0 c0,
+  sess_valid ss e0 c0 -> sess_valid (mkS ac (hist ss ++ [x])) e0 c0.
 Proof.
-  intros ss s s' x ac He H. unfold sess_ok in *. rewrite He. cbn [hist].
-  destruct (sess s) as [|e0 c0|].
-  - exact I.
-  - destruct H as [H | [H1 [H2 [c H3]]]]; [left; now apply in_hist_snoc|].
-    right; split; [exact H1 | split; [exact H2 | exists c; now apply in_hist_snoc]].
-  - now apply tainted_snoc.
+  intros ss ac x e0 c0 [H | [H1 [H2 [c H3]]]]; unfold sess_valid; cbn [hist].
+  - left; now apply in_hist_snoc.
+  - right; split; [exact H1 | split; [exact H2 | exists c; now apply in_hist_snoc]].
+Qed.
+
+Lemma sess_ok_snoc : forall ss s s' x ac,
+  sessall s' = sessall s -> sess_ok ss s -> sess_ok (mkS ac (hist ss ++ [x])) s'.
+Proof.
+  intros ss s s' x ac He [H1 H2]. unfold sessall in He. inversion He as [[Hs Hb]]. unfold sess_ok. rewrite Hs, Hb.
+  split.
+  - destruct (sess s) as [|e0 c0|]; [exact I | now apply sess_valid_snoc | cbn [hist]; now apply tainted_snoc].
+  - intros e e0 c0 H. apply sess_valid_snoc. exact (H2 _ _ _ H).
 Qed.
 
 Lemma step_activate : forall E ss s e c kv,
@@ -656,8 +669,11 @@ Proof.
 Qed.
 
 Lemma sess_ok_same : forall ss ss' s s',
-  hist ss' = hist ss -> sess s' = sess s -> sess_ok ss s -> sess_ok ss' s'.
-Proof. intros ss ss' s s' Hh He H. unfold sess_ok in *. rewrite Hh, He. exact H. Qed.
+  hist ss' = hist ss -> sessall s' = sessall s -> sess_ok ss s -> sess_ok ss' s'.
+Proof.
+  intros ss ss' s s' Hh He H. unfold sessall in He. inversion He as [[Hs Hb]].
+  unfold sess_ok, sess_valid in *. rewrite Hh, Hs, Hb. exact H.
+Qed.
 
 Lemma step_deactivate : forall E ss s ev,
   Inv E ss s -> deact_raises fa en s = false -> snext ss ev = mkS None (hist ss) ->
@@ -732,13 +748,50 @@ Proof.
     + exact (inv_sess _ _ _ HI).
 Qed.
 
-Lemma Inv_set_sess : forall E ss s x,
-  Inv E ss s -> sess_ok ss (set_sess s x) -> Inv E ss (set_sess s x).
+Lemma Inv_sessall : forall E ss s s',
+  Inv E ss s ->
+  top s' = top s -> sql s' = sql s -> tst s' = tst s -> subs s' = subs s -> pattr s' = pattr s -> config s' = config s ->
+  sess_ok ss s' -> Inv E ss s'.
 Proof.
-  intros E ss s x HI Hs. constructor.
-  - exact (inv_attr _ _ _ HI). - exact (inv_hist _ _ _ HI).
-  - pose proof (inv_act _ _ _ HI) as H. destruct (active ss) as [[e c]|]; exact H.
-  - exact (inv_cfg _ _ _ HI). - exact Hs.
+  intros E ss s s' HI Ht Hq Hts Hsb Hpa Hc Hs. constructor.
+  - intros f e' H. rewrite Hsb in H. rewrite Hpa. exact (inv_attr _ _ _ HI f e' H).
+  - exact (inv_hist _ _ _ HI).
+  - pose proof (inv_act _ _ _ HI) as H. destruct (active ss) as [[e c]|].
+    + destruct H as [[A [B [C [D F]]]] [G K]]. split; [|split; [exact G | rewrite Hc; exact K]].
+      unfold homog. rewrite Ht, Hq, Hts, Hsb. exact (conj A (conj B (conj C (conj D F)))).
+    + destruct H as [[A [B [C D]]] G]. split; [|congruence].
+      unfold realc. rewrite Ht, Hq, Hts, Hsb. exact (conj A (conj B (conj C D))).
+  - rewrite Hc. exact (inv_cfg _ _ _ HI).
+  - exact Hs.
+Qed.
+
+Lemma accept_session : forall ss e c c0 cfg,
+  active ss = Some (e, c) -> sess_valid ss e c0 -> accept fa en ss GetOrCreate (GSession e c0) cfg = true.
+Proof.
+  intros ss e c c0 cfg Hac Hv. unfold accept. cbn [snext]. rewrite Hac. cbn. rewrite String.eqb_refl. cbn [andb].
+  destruct Hv as [H | [H1 [H2 _]]].
+  - rewrite H. rewrite !orb_true_r. reflexivity.
+  - subst c0. rewrite H1. cbn. apply orb_true_r.
+Qed.
+
+Lemma sess_valid_engine : forall E ss e0 c0, hist_engine E (hist ss) -> sess_valid ss e0 c0 -> E = Some e0.
+Proof.
+  intros E ss e0 c0 Hh [H | [_ [_ [c H]]]]; exact (hist_engine_in _ _ _ _ Hh H).
+Qed.
+
+Lemma Inv_remember : forall E ss e r,
+  Inv E ss (snd r) -> (forall e0 c0, fst r = GSession e0 c0 -> sess_valid ss e0 c0) ->
+  fst (remember fa e r) = fst r /\ Inv E ss (snd (remember fa e r)).
+Proof.
+  intros E ss e [o s'] HI Hv. unfold remember. cbn [fst snd] in *.
+  destruct o; try (split; [reflexivity | exact HI]).
+  destruct (mem e (f_cached fa)); [|split; [reflexivity | exact HI]].
+  cbn [fst snd]. split; [reflexivity|].
+  apply (Inv_sessall E ss s'); try reflexivity; [exact HI|].
+  destruct (inv_sess _ _ _ HI) as [H1 H2]. split; [exact H1|].
+  intros e' e1 c1 H. cbn in H. destruct (String.eqb e' e).
+  - inversion H; subst. now apply Hv.
+  - exact (H2 _ _ _ H).
 Qed.
 
 Lemma step_goc : forall E ss s,
@@ -748,48 +801,57 @@ Lemma step_goc : forall E ss s,
   /\ Inv E ss (snd (get_or_create fa en s)).
 Proof.
   intros E ss s HI Hsr. pose proof (inv_act _ _ _ HI) as Hact.
-  unfold accept, get_or_create. cbn [snext].
+  unfold get_or_create.
   destruct (active ss) as [[e c]|] eqn:Hac.
   - destruct Hact as [Hh [Hin Hc]]. pose proof Hh as [Ht [Hq _]].
-    unfold Activate.import_sql. rewrite Hq, Hsr. cbn [andb].
-    pose proof (inv_sess _ _ _ HI) as Hse. unfold sess_ok in Hse.
+    unfold Activate.import_sql. rewrite Hq, Hsr.
+    destruct (inv_sess _ _ _ HI) as [Hse Hbc].
     assert (HE : E = Some e) by exact (hist_engine_in _ _ _ _ (inv_hist _ _ _ HI) Hin).
-    destruct (sess s) as [|e0 c0|] eqn:Hs.
-    + (* first creation *)
-      unfold create_session.
-      destruct (is_bad (if mem e (f_noconn fa) then None else assoc (f_conn_key fa) (config s))
-                && mem e (bad_raises en)) eqn:Hbad; cbn [fst snd].
-      * apply andb_true_iff in Hbad as [Hb _].
+    assert (Hsame : forall e0 c0, sess_valid ss e0 c0 -> e0 = e).
+    { intros e0 c0 Hv. pose proof (sess_valid_engine _ _ _ _ (inv_hist _ _ _ HI) Hv) as H. rewrite HE in H. now inversion H. }
+    (* the creation of a new session of engine e from the stored configuration *)
+    assert (Hcreate : forall s0, Inv E ss s0 -> config s0 = config s ->
+              accept fa en ss GetOrCreate (fst (remember fa e (create_session fa en e s0)))
+                     (config (snd (remember fa e (create_session fa en e s0)))) = true
+              /\ Inv E ss (snd (remember fa e (create_session fa en e s0)))).
+    { intros s0 HI0 Hcfg0. unfold create_session. rewrite Hcfg0.
+      set (c' := if mem e (f_noconn fa) then None else assoc (f_conn_key fa) (config s)).
+      destruct (is_bad c' && mem e (bad_raises en)) eqn:Hbad.
+      - apply andb_true_iff in Hbad as [Hb _].
         assert (Ht9 : tainted (hist ss) = true).
-        { destruct (mem e (f_noconn fa)); [discriminate|].
+        { unfold c' in Hb. destruct (mem e (f_noconn fa)); [discriminate|].
           destruct (assoc (f_conn_key fa) (config s)) as [k|] eqn:Hk; [|discriminate].
           cbn in Hb. destruct k as [|[|[|[|[|[|[|[|[|[|k]]]]]]]]]]; try discriminate.
           destruct (inv_cfg _ _ _ HI _ Hk) as [e' He']. now apply (in_hist_bad_tainted e'). }
-        split; [cbn; rewrite Ht9; reflexivity|].
-        apply Inv_set_sess; [exact HI | unfold sess_ok; cbn; exact Ht9].
-      * assert (Hok : (mem e (f_noconn fa) && optnat_eqb (if mem e (f_noconn fa) then None else assoc (f_conn_key fa) (config s)) None
-                       || in_hist e (if mem e (f_noconn fa) then None else assoc (f_conn_key fa) (config s)) (hist ss)) = true).
-        { destruct (mem e (f_noconn fa)) eqn:Hn; [reflexivity|]. cbn [andb orb].
-          destruct (assoc (f_conn_key fa) (config s)) as [k|] eqn:Hk.
-          - destruct (inv_cfg _ _ _ HI _ Hk) as [e' He'].
-            pose proof (hist_engine_in _ _ _ _ (inv_hist _ _ _ HI) He') as HE'. rewrite HE in HE'. inversion HE'; subst e'. exact He'.
-          - destruct c as [k|]; [exfalso; now apply (Hc k eq_refl)|]. exact Hin. }
-        split; [cbn; rewrite String.eqb_refl, Hok; apply orb_true_r|].
-        apply Inv_set_sess; [exact HI|]. unfold sess_ok; cbn.
-        destruct (mem e (f_noconn fa)) eqn:Hn.
-        -- right; split; [reflexivity | split; [reflexivity | exists c; exact Hin]].
-        -- left. cbn in Hok. exact Hok.
-    + (* a session exists: by the invariant it is this engine's *)
-      assert (He0 : e0 = e).
-      { destruct Hse as [H | [_ [_ [c' H]]]];
-          pose proof (hist_engine_in _ _ _ _ (inv_hist _ _ _ HI) H) as HE'; rewrite HE in HE'; now inversion HE'. }
-      subst e0. rewrite String.eqb_refl. cbn [orb fst snd].
-      split; [|exact HI].
-      cbn. rewrite String.eqb_refl. cbn [andb].
-      destruct Hse as [H | [H1 [H2 _]]].
-      * rewrite H. rewrite !orb_true_r. reflexivity.
-      * subst c0. rewrite H1. cbn. apply orb_true_r.
-    + cbn [fst snd]. split; [cbn; rewrite Hse; reflexivity | exact HI].
+        cbn [remember fst snd]. split; [unfold accept; cbn [snext]; rewrite Hac; cbn; rewrite Ht9; reflexivity|].
+        apply (Inv_sessall E ss s0); try reflexivity; [exact HI0|].
+        destruct (inv_sess _ _ _ HI0) as [_ H2]. split; [exact Ht9 | exact H2].
+      - assert (Hv : sess_valid ss e c').
+        { unfold c'. destruct (mem e (f_noconn fa)) eqn:Hn.
+          - right; split; [exact Hn | split; [reflexivity | exists c; exact Hin]].
+          - left. destruct (assoc (f_conn_key fa) (config s)) as [k|] eqn:Hk.
+            + destruct (inv_cfg _ _ _ HI _ Hk) as [e' He'].
+              pose proof (hist_engine_in _ _ _ _ (inv_hist _ _ _ HI) He') as HE'. rewrite HE in HE'. inversion HE'; subst e'. exact He'.
+            + destruct c as [k|]; [exfalso; now apply (Hc k eq_refl)|]. exact Hin. }
+        assert (HI1 : Inv E ss (set_sess s0 (SLive e c'))).
+        { apply (Inv_sessall E ss s0); try reflexivity; [exact HI0|].
+          destruct (inv_sess _ _ _ HI0) as [_ H2]. split; [exact Hv | exact H2]. }
+        destruct (Inv_remember E ss e (GSession e c', set_sess s0 (SLive e c')) HI1) as [Ho HI2].
+        { intros e0 c0 H. cbn in H. inversion H; subst. exact Hv. }
+        rewrite Ho. cbn [fst]. split; [now apply (accept_session ss e c) | exact HI2]. }
+    destruct (if mem e (f_cached fa) then assoc e (bcache s) else None) as [[e0 c0]|] eqn:Hcache.
+    + (* the Builder's cached session *)
+      assert (Hv : sess_valid ss e0 c0).
+      { destruct (mem e (f_cached fa)); [|discriminate]. exact (Hbc _ _ _ Hcache). }
+      pose proof (Hsame _ _ Hv) as He0. subst e0. cbn [fst snd].
+      split; [now apply (accept_session ss e c) | exact HI].
+    + destruct (sess s) as [|e0 c0|] eqn:Hs.
+      * apply (Hcreate s HI eq_refl).
+      * pose proof (Hsame _ _ Hse) as He0. subst e0. rewrite String.eqb_refl. cbn [orb].
+        destruct (Inv_remember E ss e (GSession e c0, s) HI) as [Ho HI2].
+        { intros e1 c1 H. cbn in H. inversion H; subst. exact Hse. }
+        rewrite Ho. cbn [fst]. split; [now apply (accept_session ss e c) | exact HI2].
+      * cbn [fst snd]. split; [unfold accept; cbn [snext]; rewrite Hac; cbn; rewrite Hse; reflexivity | exact HI].
   - destruct Hact as [Hr Hcfg].
     destruct (import_sql_real s Hr) as [Ho [Hr' [Hf1 [Hf2 Hf3]]]].
     destruct (import_sql s) as [o s1]; cbn [fst snd] in *. subst o.
@@ -799,6 +861,7 @@ Proof.
       - rewrite Hac. split; [exact Hr' | congruence].
       - rewrite Hf1. exact (inv_cfg _ _ _ HI).
       - apply (sess_ok_same ss ss s); [reflexivity | exact Hf2 | exact (inv_sess _ _ _ HI)]. }
+    unfold accept. cbn [snext]. rewrite Hac.
     unfold Activate.base_view. destruct (installed en) eqn:Hi; cbn [fst snd].
     + split; [rewrite Hf1, Hcfg; reflexivity | exact HI'].
     + split; [rewrite Hf1, Hcfg; reflexivity | exact HI'].
@@ -871,6 +934,32 @@ Proof.
   apply Nat.eqb_refl.
 Qed.
 
+Definition same_core (s s' : state) : Prop :=
+  top s' = top s /\ sql s' = sql s /\ tst s' = tst s /\ subs s' = subs s /\ pattr s' = pattr s /\ config s' = config s.
+
+Lemma Inv0_core : forall ss s s', Inv0 ss s -> same_core s s' -> Inv0 ss s'.
+Proof.
+  intros ss s s' [Hai Hact] [Ht [Hq [Hts [Hsb [Hpa Hc]]]]]. split.
+  - intros f e' H. rewrite Hsb in H. rewrite Hpa. exact (Hai f e' H).
+  - destruct (active ss) as [[e c]|].
+    + destruct Hact as [A [B [C [D F]]]]. unfold homog. rewrite Ht, Hq, Hts, Hsb. exact (conj A (conj B (conj C (conj D F)))).
+    + destruct Hact as [[A [B [C D]]] G]. split; [|congruence].
+      unfold realc. rewrite Ht, Hq, Hts, Hsb. exact (conj A (conj B (conj C D))).
+Qed.
+
+Lemma goc_core_active : forall e s, sql s = Some (SfPkg e) -> same_core s (snd (get_or_create fa en s)).
+Proof.
+  intros e s Hq. unfold get_or_create, Activate.import_sql. rewrite Hq.
+  destruct (mem e (f_selfref fa)); [repeat split|].
+  destruct (if mem e (f_cached fa) then assoc e (bcache s) else None) as [[e0 c0]|]; [repeat split|].
+  unfold remember, create_session.
+  destruct (sess s) as [|e0 c0|]; [| |repeat split].
+  - destruct (is_bad _ && _); cbn [fst snd]; [repeat split|]. destruct (mem e (f_cached fa)); repeat split.
+  - destruct (String.eqb e0 e || f_singleton_global fa).
+    + destruct (mem e (f_cached fa)); repeat split.
+    + destruct (is_bad _ && _); cbn [fst snd]; [repeat split|]. destruct (mem e (f_cached fa)); repeat split.
+Qed.
+
 Lemma step_inv0 : forall ss s ev,
   Inv0 ss s -> step_ok0 fa en ss s ev = true ->
   accept0 fa en ss ev (fst (step s ev)) (config (snd (step s ev))) = true /\ Inv0 (snext ss ev) (snd (step s ev)).
@@ -902,24 +991,12 @@ Proof.
   - apply (Hactiv e c kv Hok). right; reflexivity.
   - apply andb_true_iff in Hok as [Hx Hnr]. rewrite Hx. apply negb_true_iff in Hnr.
     apply (Hdeact Hnr (CtxExit k)); [reflexivity | exact I].
-  - (* getOrCreate: only the import of pyspark.sql and the session slot can change *)
-    unfold accept0, get_or_create. cbn [snext].
+  - (* getOrCreate: only the import of pyspark.sql, the session slot and the Builder caches can change *)
+    unfold accept0. cbn [snext].
     destruct (active ss) as [[e c]|] eqn:Hac.
-    + pose proof Hact as [Ht [Hq _]]. unfold Activate.import_sql. rewrite Hq.
-      assert (Hgen : forall x : eobs * state,
-                (x = (GRaise, s) \/ x = (GUnknown, s) \/ (exists o, x = (o, s)) \/ x = create_session fa en e s) ->
-                Inv0 ss (snd x)).
-      { intros x [H | [H | [[o H] | H]]]; subst x; cbn [snd]; unfold Inv0; rewrite Hac; try (split; [exact Hai | exact Hact]).
-        unfold create_session. destruct (is_bad _ && _); cbn [snd]; (split; [exact Hai | exact Hact]). }
-      split; [reflexivity|].
-      destruct (mem e (f_selfref fa)); [apply Hgen; left; reflexivity|].
-      destruct (sess s) as [|e0 c0|].
-      * apply Hgen. right; right; right; reflexivity.
-      * destruct (String.eqb e0 e || f_singleton_global fa).
-        -- apply Hgen. right; right; left. eexists; reflexivity.
-        -- apply Hgen. right; right; right; reflexivity.
-      * apply Hgen. right; left; reflexivity.
-    + destruct Hact as [Hr Hcfg].
+    + pose proof Hact as [_ [Hq _]]. split; [reflexivity|].
+      apply (Inv0_core ss s); [unfold Inv0; rewrite Hac; split; assumption | now apply (goc_core_active e)].
+    + unfold get_or_create. destruct Hact as [Hr Hcfg].
       destruct (import_sql_real s Hr) as [Ho [Hr' [Hf1 _]]].
       destruct (import_sql s) as [o s1]; cbn [fst snd] in *. subst o.
       assert (HI' : Inv0 ss s1) by (unfold Inv0; rewrite Hac; split; [now apply realc_attr_inv | split; [exact Hr' | congruence]]).
